@@ -23,6 +23,7 @@ import (
 	"encoding/base64"
 	"fmt"
 	"math"
+	"strconv"
 
 	"github.com/cloudwego/dynamicgo/http"
 	"github.com/cloudwego/dynamicgo/internal/json"
@@ -67,6 +68,14 @@ func decodeString(s string, v types.JsonState, end int) (string, error) {
 		return "", errSyntax(s, ret)
 	}
 	return rt.Mem2Str(buf), nil
+}
+
+// checkDepth limits the nesting of objects and arrays to what the native implementation accepts
+func checkDepth(depth int) error {
+	if depth >= types.MAX_RECURSE-1 {
+		return newError(meta.ErrStackOverflow, "stack "+strconv.Itoa(depth+1)+" overflow", nil)
+	}
+	return nil
 }
 
 // float2int converts a JSON number with fraction or exponent to an integer of thrift type t.
@@ -167,6 +176,9 @@ func (self *BinaryConv) doRecurse(ctx context.Context, s string, jp int, desc *t
 			if err = expectType2(thrift.LIST, thrift.SET, desc.Type()); err != nil {
 				return
 			}
+			if err = checkDepth(depth); err != nil {
+				return
+			}
 
 			et := desc.Elem()
 			back, _ := p.WriteListBeginWithSizePos(et.Type(), 0)
@@ -199,6 +211,9 @@ func (self *BinaryConv) doRecurse(ctx context.Context, s string, jp int, desc *t
 			}
 
 		case types.V_OBJECT:
+			if err = checkDepth(depth); err != nil {
+				return
+			}
 			if t := desc.Type(); t == thrift.MAP {
 				size := 0
 				kt := desc.Key()
